@@ -327,6 +327,8 @@ def trim_count(idx, rep, lanczos, fact, init, size_text):
                          else [(st.targets[0], st.value)]):
                 if isinstance(t, ast.Name) and t.id == root:
                     e = v
+    if e is None and counter_local is not None and root == counter_local:
+        e = ast.Name(id=root, ctx=ast.Load())  # the cut is written on the factorisation's counter itself
     if e is None:
         rep.undecided("trimming", "lanczos:count", f"definition of the size `{root}` not found")
         return
